@@ -57,40 +57,8 @@ def raw_patterns(prog):
     return pats
 
 
-def step_variant(s):
-    k = s['op']
-    if k == 'fill_to' and s['obj'].get('sel', {}).get('t') not in (None, 'plate', 'all'):
-        return 'fill_to-slice'
-    if k == 'solution' and 'o' in s['solvent']:
-        return 'solution-container-solvent'
-    return k
-
-
-def first_divergence(world, pp, rr, eager, prog):
-    """kind of the first step whose recorded after-state (RecipeStep.to[1] / frm[1]) differs from the eager ledger"""
-    steps = programs.real_steps(prog)
-    for i, (s, rs) in enumerate(zip(steps, rr.recipe.steps)):
-        if i + 1 >= len(eager.snapshots):
-            break
-        k = s['op']
-        pairs = []
-        if k == 'transfer':
-            pairs = [(rs.frm, s['src']['o']), (rs.to, s['dst']['o'])]
-        elif k in ('remove', 'fill_to'):
-            pairs = [(rs.to, s['obj']['o'])]
-        elif k == 'dilute':
-            pairs = [(rs.to, s['obj'])]
-        elif k in ('solution', 'create_container'):
-            pairs = [(rs.to, s['name'])]
-        elif k == 'solution_from':
-            pairs = [(rs.frm, s['src']), (rs.to, s['name'])]
-        for lst, key in pairs:
-            if len(lst) > 1 and lst[-1] is not None and key in eager.snapshots[i + 1]:
-                if not programs.same_object(world, bench.view(lst[-1], pp), eager.snapshots[i + 1][key]):
-                    return step_variant(s)
-        if k == 'solution' and 'o' in s['solvent'] and s['solvent']['o'] in rr.recipe.results:
-            pass
-    return 'unrecorded'
+step_variant = programs.step_variant
+first_divergence = programs.first_divergence
 
 
 def check_program(col, pp, cfg, prog):
